@@ -182,6 +182,8 @@ structure ModuleOK (m : Module) : Prop where
     ∀ c ∈ m.ctxs, ∀ a ∈ attrsOfTypeInfo c.2, a.backEnd ∈ expectedBackEnds m
   /-- static references refer to constants -/
   staticRefs : ∀ b ∈ m.staticRefs, b = true
+  /-- every run-time integer expression fits a 64-bit integer type (C05's gate accepts it) -/
+  gated : ∀ g ∈ m.gated, Emboss.Bounds.gate g.2 = some []
 
 /-- The module list is realisable as the language reference states. -/
 def Realisable (p : Program) : Prop :=
